@@ -28,7 +28,7 @@ def drive_pack(cases, make_calls, transport="bundled", stats=None, naming="opera
             for j, spec in enumerate(make_calls(c)):
                 s = dict(spec)
                 s["id"] = [i, j]
-                s["prop"] = ops.tag_name(i)
+                s["prop"] = ops.tag_name(i) + ("zz" if s.pop("via_second_tag", False) else "")   # operations with "two_tags" are reachable under both
                 s["method"] = f"op{i}"
                 calls.append(s)
         res = sandbox.zygote_job({"roots": [root], "allow": ["cli"], "driver": "drive",
